@@ -1890,6 +1890,10 @@ def note_array_from_part_list(
             na["onset_div"] = na["onset_div"] * time_mult
             na["duration_div"] = na["duration_div"] * time_mult
             na["divs_pq"] = na["divs_pq"] * time_mult
+            # the metrical position columns are in divisions as well
+            for name in ("rel_onset_div", "tot_measure_div"):
+                if name in na.dtype.names:
+                    na[name] = na[name] * time_mult
 
     # concatenate note_arrays
     note_array = np.hstack(note_array)
